@@ -20,9 +20,12 @@ pub enum Status {
     SecondInFile,
     /// bytes that are not UTF-8 on a later line of the file: after the complete definition, or inside it
     NotUtf8Late,
+    /// exports a name it neither defines nor imports
+    ExportsMissing,
 }
 
-pub const FILE_STATUSES: [Status; 9] = [
+pub const FILE_STATUSES: [Status; 10] = [
+    Status::ExportsMissing,
     Status::Healthy,
     Status::Missing,
     Status::BodyFault,
@@ -33,7 +36,7 @@ pub const FILE_STATUSES: [Status; 9] = [
     Status::SecondInFile,
     Status::NotUtf8Late,
 ];
-pub const SOURCE_STATUSES: [Status; 4] = [Status::Healthy, Status::Missing, Status::BodyFault, Status::UsesUnimported];
+pub const SOURCE_STATUSES: [Status; 5] = [Status::Healthy, Status::Missing, Status::BodyFault, Status::UsesUnimported, Status::ExportsMissing];
 
 #[derive(Clone, Debug)]
 pub struct Graph {
@@ -64,6 +67,14 @@ fn unimported_name(g: &Graph, i: usize) -> String {
     }
 }
 
+fn extra_export(g: &Graph, i: usize) -> String {
+    if g.status[i] == Status::ExportsMissing {
+        if i % 2 == 0 { format!(" nothing{}", i) } else { format!(" (rename nothing{} n{})", i, i) }
+    } else {
+        String::new()
+    }
+}
+
 fn body_text(g: &Graph, i: usize) -> String {
     match g.status[i] {
         Status::BodyFault => format!("(define v{} (no-such-procedure {}))", i, i),
@@ -82,19 +93,19 @@ fn lib_text(g: &Graph, i: usize, name_override: Option<&str>) -> String {
         let decls: String = g.edges[i].iter().map(|j| format!(" (import {})", import_set(g, *j))).collect();
         let name = name_override.map(|s| s.to_string()).unwrap_or(format!("(g n{})", i));
         let body = body_text(g, i);
-        return format!("(define-library {}{} (export v{}) (begin {}))\n", name, decls, i, body);
+        return format!("(define-library {}{} (export v{}{}) (begin {}))\n", name, decls, i, extra_export(g, i), body);
     }
     let imports: String = g.edges[i].iter().map(|j| format!(" {}", import_set(g, *j))).collect();
     let name = name_override.map(|s| s.to_string()).unwrap_or(format!("(g n{})", i));
     let body = body_text(g, i);
     let imp = if imports.is_empty() { String::new() } else { format!(" (import{})", imports) };
-    format!("(define-library {}{} (export v{}) (begin {}))\n", name, imp, i, body)
+    format!("(define-library {}{} (export v{}{}) (begin {}))\n", name, imp, i, extra_export(g, i), body)
 }
 
 fn file_bytes(g: &Graph, i: usize) -> Option<Vec<u8>> {
     match g.status[i] {
         Status::Missing => None,
-        Status::Healthy | Status::BodyFault | Status::UsesUnimported => Some(lib_text(g, i, None).into_bytes()),
+        Status::Healthy | Status::BodyFault | Status::UsesUnimported | Status::ExportsMissing => Some(lib_text(g, i, None).into_bytes()),
         Status::SecondInFile => Some(format!("(define-library (g decoy{}) (export d) (begin (define d 0)))\n{}", i, lib_text(g, i, None)).into_bytes()),
         Status::WrongName => Some(lib_text(g, i, Some("(g other)")).into_bytes()),
         Status::Unbalanced => {
@@ -126,7 +137,7 @@ fn file_bytes(g: &Graph, i: usize) -> Option<Vec<u8>> {
 }
 
 fn traversable(s: Status) -> bool {
-    matches!(s, Status::Healthy | Status::BodyFault | Status::UsesUnimported | Status::SecondInFile)
+    matches!(s, Status::Healthy | Status::BodyFault | Status::UsesUnimported | Status::SecondInFile | Status::ExportsMissing)
 }
 
 /// error classes that the graph makes acceptable for an import of `root` (empty = must succeed)
@@ -151,7 +162,7 @@ pub fn acceptable(g: &Graph, root: usize) -> Vec<&'static str> {
             let c = match g.status[i] {
                 Status::Healthy | Status::SecondInFile => continue,
                 Status::Missing | Status::WrongName => "Logic::LibraryNotFound",
-                Status::BodyFault | Status::UsesUnimported => "Logic::UnboundedSymbol",
+                Status::BodyFault | Status::UsesUnimported | Status::ExportsMissing => "Logic::UnboundedSymbol",
                 Status::Unbalanced => "Syntax",
                 Status::NotUtf8 | Status::NotUtf8Late => "IO",
             };
@@ -573,7 +584,7 @@ pub fn run(ctx: &Ctx) {
     ctx.set_rule(
         "every directed graph (self-loops allowed) on 1-2 libraries (thorough: 3, strided) x every assignment of node \
          status (files: healthy / missing / body faults at load / file defines another name / unbalanced / not UTF-8 / \
-         body uses the export of a library it does not import / a healthy definition that is the second one in its file / non-UTF-8 bytes on a later line; registered sources: healthy / missing / body fault / uses \
+         body uses the export of a library it does not import / exports a name it does not have / a healthy definition that is the second one in its file / non-UTF-8 bytes on a later line; registered sources: healthy / missing / body fault / uses \
          unimported) x every history of 1-3 import attempts on one interpreter. \
          Edges (and the program's own import) are written as plain, prefix, only or rename import sets. \
          Oracle computed from the graph alone: success iff everything reachable is healthy and no cycle is reachable, a \
